@@ -4,7 +4,7 @@
    The histories include pair-verify requests that stay IN FLIGHT for any time (phase [PVerify]:
    the connection is open and current but not secure), cut off by the 30 s request timeout. *)
 From Coq Require Import List NArith Arith Bool Lia.
-From AHK Require Import Model.Reconnect Proofs.Reconnect.
+From AHK Require Import Model.Reconnect Proofs.Reconnect Proofs.ReconnectWait.
 Import ListNotations.
 
 (* at every moment at most one connection is open, and it is the one the pairing considers current *)
@@ -125,6 +125,27 @@ Example c11_scripted_loss_nonvacuous :
   opn s = [2] /\ connected s = true /\ ph s = PDoneOk /\ count_dials (trace s) = 2 /\ tie s = false.
 Proof. vm_compute. repeat split; reflexivity. Qed.
 
+(* round 8 (seed C11-P and the defect it led to): the accessory resets a connection - whichever, in whatever state the
+   connector is, whether the event loop notices at once or a few iterations late - and the pairing is closed / shut down
+   in the same tick: the close completes, nothing stays open *)
+Theorem reset_then_close_total : forall s f t c, reachable s ->
+    let s' := apply_control Close (apply_control (DropReset c) (advance f t s)) in
+    opn s' = [] /\ closing s' = true /\ hd_error (trace s') = Some (now s', EvReturned false).
+Proof. intros s f t c H. exact (Proofs.ReconnectWait.reset_then_close_total _ c (reachable_advance_inv _ f t H)). Qed.
+
+Theorem reset_then_shutdown_total : forall s f t c, reachable s ->
+    let s' := apply_control Shutdown (apply_control (DropReset c) (advance f t s)) in
+    opn s' = [] /\ closing s' = true /\ shut s' = true /\ running s' = false.
+Proof. intros s f t c H. exact (Proofs.ReconnectWait.reset_then_shutdown_total _ c (reachable_advance_inv _ f t H)). Qed.
+
+(* ... and the pairing can be used again afterwards: reset of the connection whose pair-verify is in flight and close
+   in one tick, then two API calls: one new connection, in use; not a second one on top of it *)
+Example c11_reset_close_reuse :
+  let s := run [0] false [DConnect 0; DConnect 0; DConnect 0] [(VOk, 0%N, 5000%N); (VOk, 0%N, 0%N); (VOk, 0%N, 0%N)]
+               [(1%N, Ensure 1); (1001%N, DropReset 1); (1001%N, Close); (31001%N, Ensure 8); (51001%N, Ensure 9)] 60001%N in
+  opn s = [2] /\ connected s = true /\ count_dials (trace s) = 2 /\ ntasks s = 0.
+Proof. vm_compute. repeat split; reflexivity. Qed.
+
 Print Assumptions open_le_1.
 Print Assumptions verify_in_flight_only_open.
 Print Assumptions failed_verify_closed.
@@ -135,3 +156,5 @@ Print Assumptions open_only_when_in_use.
 Print Assumptions stale_loss_harmless.
 Print Assumptions close_total.
 Print Assumptions shutdown_total.
+Print Assumptions reset_then_close_total.
+Print Assumptions reset_then_shutdown_total.
